@@ -118,7 +118,7 @@ def run(ctx):
             return None
         def brole(fn, bb, o):
             o = o.strip()
-            if o.k == "var" and o.a.get("name") == "quit":
+            if o.k == "var" and o.a.get("local") is not None and o.a.get("local") == C.quit_flag_local(fn):
                 return "quit?"
             return None
         g = C.G(prim.event_graph(df, role, branch_role=brole))
@@ -137,7 +137,7 @@ def run(ctx):
                 ctx.ob("R2", "iterates-the-list-forward", ok, "do_find iterates %s; oracle: the parsed list itself, front to back (no rev/skip/filter)" % o.fmt(), fn=df, where=prim.site(df, b), how="provenance slice")
             if role(t) == "walk":
                 qo = prim.origin_of_operand(df, t.args[4])
-                ok = prim.user_local_behind(df, t.args[4]) is not None and df.local_name(prim.user_local_behind(df, t.args[4])) == "quit"
+                ok = prim.user_local_behind(df, t.args[4]) is not None and prim.user_local_behind(df, t.args[4]) == C.quit_flag_local(df)
                 ctx.ob("R2", "quit-flag-shared", ok, "process_dir reports -quit through %s" % qo.fmt(), fn=df, where=prim.site(df, b), how="provenance slice", nontrivial=False)
     # ---- R3 isolation -------------------------------------------------------------------------------------------
     C.import_rules(ctx, "C02", ["R3"], "R3", key_prefix="walk-error")
